@@ -74,6 +74,9 @@ class Setup:
         return z3.Or([self.A[a] for a in self.atoms if table[a] == (v, b)])
 
 
+SELFTEST = {"on": False}
+
+
 def interpret_options(args, problem):
     """documented clingo contract for the options biobalm passes"""
     norm = [a.replace(" ", "") for a in args]
@@ -184,6 +187,8 @@ def trappist_config(S, problem, reverse, ens, rng):
             for v in free:
                 conj.append(z3.Implies(RS[v], z3.Or(fx(v, 0), fx(v, 1))))
     spec = z3.And(conj)
+    if SELFTEST["on"]:
+        spec = z3.And(spec, z3.BoolVal(False))       # vacuity twin: must come back sat and be reported
     s = z3.Solver()
     s.set("timeout", 120000)
     s.add(S.COVER)
@@ -197,7 +202,7 @@ def trappist_config(S, problem, reverse, ens, rng):
         return {"status": "unknown", "z3_s": dt}
     m = s.model()
     tv = lambda e: bool(z3.is_true(m.eval(e, model_completion=True)))
-    cex = {"kind": "trappist", "n": n, "problem": problem, "reverse": reverse, "ensure": ensure,
+    cex = {"kind": "trappist", "selftest": SELFTEST["on"], "n": n, "problem": problem, "reverse": reverse, "ensure": ensure,
            "tables": {v: [int(tv(S.F[v][x])) for x in S.states] for v in names},
            "cover": [i for i in range(len(S.shapes)) if tv(S.P[i])],
            "avoid": [S.sdict(X) for X in avoid_spaces if tv(Q[X])],
@@ -372,6 +377,8 @@ def replay(rec):
         from checks import c09_api
         return c09_api.replay(rec)
     c = rec["cex"]
+    if c.get("selftest"):
+        return {"reproduces": True, "failing": ["selftest"], "signature": None}
     if c["kind"] == "options":
         return {"reproduces": True, "failing": ["solver options do not select the required models"], "signature": None}
     n = c["n"]
@@ -484,7 +491,8 @@ def main(tier, seed, t0, selftest=False):
                 for ens in subs4:
                     jobs.append({"kind": "trappist", "n": 4, "problem": problem, "reverse": reverse, "ens": list(ens), "seed": seed})
     if selftest:
-        jobs = [j for j in jobs if j["n"] == 2][:6]
+        jobs = [j for j in jobs if j["n"] == 2 and j["kind"] == "trappist"][:6]
+        SELFTEST["on"] = True
     jobs.sort(key=lambda j: -j["n"])
     ctx = mp.get_context("fork")
     with ctx.Pool(common.NCPU) as pool:
